@@ -84,6 +84,22 @@ BATCHES = {
 		n_ += n;""", """		n_ += n;
 		ns_ = xs_.from_linear(n_);""", 1),
     ],
+    "siblings": [
+        ("array.hpp", "if(adl_distance(first, last) == this->size() && (first == last || multi::extensions(*first) == multi::extensions(*this->begin()))) {",
+         "if(this->size() == adl_distance(first, last) && (first == last || multi::extensions(*this->begin()) == multi::extensions(*first))) {", 1),
+        ("array.hpp", "constexpr auto dropped(difference_type n) && -> decltype(auto) { return ref::dropped(n).element_moved(); }",
+         "constexpr auto dropped(difference_type n) && -> decltype(auto) { auto&& rest = ref::dropped(n); return rest.element_moved(); }", 1),
+        ("adaptors/blas/axpy.hpp", "blas::axpy_n(self.ctxt_, -static_cast<typename ItX::value_type>(self.alpha_), self.x_begin_, self.count_, other.begin());",
+         "auto const minus_alpha = -static_cast<typename ItX::value_type>(self.alpha_);\n\t\tblas::axpy_n(self.ctxt_, minus_alpha, self.x_begin_, self.count_, other.begin());", 1),
+        ("adaptors/mpi.hpp", ": count_{other.count_}, datatype_{std::exchange(other.datatype_, MPI_DATATYPE_NULL)} {}",
+         ": count_{other.count_}, datatype_{other.datatype_} { other.datatype_ = MPI_DATATYPE_NULL; }", 1),
+        ("array_ref.hpp", """[&](typename const_subarray::element const& elem) {arxiv & AT    ::make_nvp("elem", elem);});
+	//  std::for_each(this->begin(), this->end(), [&](auto&&     item) {arxiv & cereal::make_nvp("item", item);});""",
+         """[&](auto const& elem) {arxiv & AT    ::make_nvp("elem", elem);});
+	//  std::for_each(this->begin(), this->end(), [&](auto&&     item) {arxiv & cereal::make_nvp("item", item);});""", 1),
+        ("adaptors/blas/gemm.hpp", "blas::gemm_n(self.ctxtp_, self.s_, self.a_begin_, self.a_end_ - self.a_begin_, self.b_begin_, 1., a.begin());",
+         "auto const rows = self.a_end_ - self.a_begin_;\n\t\tblas::gemm_n(self.ctxtp_, self.s_, self.a_begin_, rows, self.b_begin_, 1., a.begin());", 1),
+    ],
 }
 
 CHECKS = ["C01", "C02", "C03", "C04", "C05", "C06", "C07", "C08", "C09", "C10", "C11", "C12", "C13", "C16", "C17", "C18", "C19", "C20"]
